@@ -89,6 +89,21 @@ def gen_cases(ctx):
             g = rand_gate(rng, 3, [kind])
             cases.append({"op": "opseq", "n": 3, "gates": [g, inverse_gate(g)], "a": rand_vec(rng, 3, "generic"), "b": rand_vec(rng, 3, "generic"),
                           "x": [ctx.randf(), ctx.randf()], "y": [ctx.randf(), ctx.randf()], "thr": rng.choice([10, 1]), "rt": True})
+    # ... and at the parameter values where a gate degenerates into a simpler one (theta = 0: a pure phase; phi = 0: a plain rotation;
+    # half and full turns): the documented inverse must still undo it
+    for kind in ("RYP", "RYPdag"):
+        for th in (0.0, -0.0, math.pi, 2 * math.pi, 0.83):
+            for ph in (0.0, math.pi, -math.pi / 2, 1.37):
+                if th == 0.83 and ph == 1.37: continue
+                for cs in ([], [2]):
+                    g = {"kind": kind, "params": [float2bits(th), float2bits(ph)], "ts": [rng.choice([0, 1])], "cs": cs}
+                    cases.append({"op": "opseq", "n": 3, "gates": [g, inverse_gate(g)], "a": rand_vec(rng, 3, "generic"), "b": rand_vec(rng, 3, "generic"),
+                                  "x": [ctx.randf(), ctx.randf()], "y": [ctx.randf(), ctx.randf()], "thr": rng.choice([10, 1]), "rt": True})
+    for kind in ("P", "RX", "RY", "RZ"):
+        for ang in (math.pi / 2, -math.pi / 2, math.pi, -math.pi, math.pi / 4, 2 * math.pi, 0.0):
+            g = {"kind": kind, "params": [float2bits(ang)], "ts": [1], "cs": rng.choice([[], [0], [2, 0]])}
+            cases.append({"op": "opseq", "n": 3, "gates": [g, inverse_gate(g)], "a": rand_vec(rng, 3, "generic"), "b": rand_vec(rng, 3, "generic"),
+                          "x": [ctx.randf(), ctx.randf()], "y": [ctx.randf(), ctx.randf()], "thr": rng.choice([10, 1]), "rt": True})
     return cases
 
 def coq_term(case, res):
